@@ -426,6 +426,7 @@ func (sc *c16CKKS) runRefresh(d *c16Deploy, ct *rlwe.Ciphertext, m []*bignum.Com
 		want[i] = &bignum.Complex{new(big.Float).SetPrec(sc.prec).Set(m[i][0]), new(big.Float).SetPrec(sc.prec).Set(m[i][1])}
 	}
 	desc := "none"
+	mixed := 0
 	if withTransform {
 		name = "ckks.MaskedTransform"
 		slots := len(m)
@@ -476,6 +477,37 @@ func (sc *c16CKKS) runRefresh(d *c16Deploy, ct *rlwe.Ciphertext, m []*bignum.Com
 			tf.Decode, tf.Encode = false, false
 			ctx.Count("probe.transform-without-decode-encode", 1)
 			desc += " (no decode/encode)"
+		}
+		if tf.Decode && sc.logSlots == cp.LogMaxSlots() && cpOut.LogN() == cp.LogN() && ch.Chance("transform-mixed-flags", 2, 3) {
+			// the flags both ways (with all slots in use, where a coefficient-domain plaintext has one meaning):
+			// decode only - the function of the slot values comes back as the coefficients of an un-batched
+			// plaintext (real parts, then imaginary parts); encode only - the coefficients of an un-batched input
+			// are taken as slot values, the function of them is encoded
+			if cp.RingType() == ring.ConjugateInvariant || ch.Bool("decode-only") {
+				mixed = 1
+				tf.Encode = false
+				ctx.Count("probe.transform-decode-only", 1)
+			} else {
+				mixed = 2
+				tf.Decode = false
+				cs := make([]*big.Float, 2*slots)
+				for i := range m {
+					cs[i], cs[i+slots] = m[i][0], m[i][1]
+				}
+				pt2 := ckks.NewPlaintext(cp, level)
+				*pt2.MetaData = *ct.MetaData
+				pt2.IsBatched = false
+				if err := sc.enc.Encode(cs, pt2); err != nil {
+					ctx.Harness("ckks coefficient encode: %v", err)
+				}
+				ct2, err := ckks.NewEncryptor(cp, d.ideal).EncryptNew(pt2)
+				if err != nil || ct2.IsBatched {
+					ctx.Harness("ckks encrypt: %v", err)
+				}
+				ct = ct2
+				ctx.Count("probe.transform-encode-only", 1)
+			}
+			desc += fmt.Sprintf(" (decode=%v encode=%v)", tf.Decode, tf.Encode)
 		}
 		f(want)
 	}
@@ -581,7 +613,11 @@ func (sc *c16CKKS) runRefresh(d *c16Deploy, ct *rlwe.Ciphertext, m []*bignum.Com
 		ctx.Fail("metadata", name+"|output-scale", "output scale is %v, the parameters' default scale %v was expected", &out.Scale.Value, &def.Value)
 		return false
 	}
-	if out.LogSlots() != ct.LogSlots() || !out.IsNTT || out.IsBatched != ct.IsBatched && tf == nil {
+	if mixed != 0 && out.IsBatched != (mixed == 2) {
+		ctx.Fail("metadata", name+"|output-encoding-flag", "a transform with decode=%v encode=%v of an input with IsBatched=%v returned an output with IsBatched=%v", tf.Decode, tf.Encode, ct.IsBatched, out.IsBatched)
+		return false
+	}
+	if out.LogSlots() != ct.LogSlots() || !out.IsNTT || out.IsBatched != ct.IsBatched && (tf == nil || tf.Decode == tf.Encode) {
 		ctx.Fail("metadata", name+"|output-metadata", "output metadata (slots 2^%d, NTT %v, batched %v) does not match the input's (slots 2^%d, batched %v)", out.LogSlots(), out.IsNTT, out.IsBatched, ct.LogSlots(), ct.IsBatched)
 		return false
 	}
@@ -593,7 +629,34 @@ func (sc *c16CKKS) runRefresh(d *c16Deploy, ct *rlwe.Ciphertext, m []*bignum.Com
 	fresh := float64(2*params.N())*float64(d.B) + float64(d.B) + 2 // fresh encryption noise of the input (sk encryption: B) plus encoding rounding
 	tol := nRing*(fresh+float64(d.n)*sb)/inScale + nRing*(float64(d.n)*sb+float64(d.n)+4)/outScale + 1e-9
 	ctx.Count("oracle.message-model", 1)
-	dist, w := scOut.decodeCmp(ctx, out, idealOut, want)
+	var dist float64
+	var w string
+	if mixed == 1 {
+		raw := decryptRaw(paramsOut, out, idealOut)
+		sl := len(want)
+		for i := range want {
+			parts := []struct {
+				k int
+				v *big.Float
+			}{{i, want[i][0]}}
+			if cp.RingType() == ring.Standard {
+				parts = append(parts, struct {
+					k int
+					v *big.Float
+				}{i + sl, want[i][1]})
+			}
+			for _, pr := range parts {
+				h := new(big.Float).SetPrec(256).SetInt(raw[pr.k])
+				h.Quo(h, &def.Value)
+				x, _ := h.Sub(h, pr.v).Float64()
+				if x = math.Abs(x); x > dist || math.IsNaN(x) {
+					dist = x
+				}
+			}
+		}
+	} else {
+		dist, w = scOut.decodeCmp(ctx, out, idealOut, want)
+	}
 	if w != "" {
 		ctx.Fail("message", name+"|decode", "%s", w)
 		return false
